@@ -201,8 +201,9 @@ def attrib(
     if isinstance(on_setattr, (list, tuple)):
         on_setattr = setters.pipe(*on_setattr)
 
-    if validator and isinstance(validator, (list, tuple)):
-        validator = and_(*validator)
+    if isinstance(validator, (list, tuple)):
+        # An empty list/tuple is the same as None.
+        validator = and_(*validator) if validator else None
 
     if converter and isinstance(converter, (list, tuple)):
         converter = pipe(*converter)
@@ -2189,7 +2190,7 @@ def _attrs_to_init_script(
     annotations = {"return": None}
 
     for a in attrs:
-        if a.validator:
+        if a.validator is not None:
             attrs_to_validate.append(a)
 
         attr_name = a.name
